@@ -62,7 +62,7 @@ CLAIMED = {
          "series is the differential of exp on se3/se23 is cited mathematics; se3/se23 Q blocks and inverses are covered by numeric search only.",
          "DESIGN.md §2 C05", TECH_T),
  "C06": ("proof", "PARTIAL (floating-point round-off not modelled). Lean 4: the switch constant of the regenerated series tables is within 1e-18 "
-         "of 1e-3; for cos, sin x/x, (1-cos x)/x^2, (x-sin x)/x^3 (squared argument; the coefficients of exp and J_l) the Taylor-cell polynomial "
+         "of 1e-3; for cos, sin x/x, (1-cos x)/x^2, (x-sin x)/x^3 (squared argument; the coefficients of exp and J_l) and (x^2/2+cos x-1)/x^4 (strap-down position integral) the Taylor-cell polynomial "
          "is within 1e-14 of the analytic coefficient for all 0<=u<eps (truncation bound proved from the series + every double coefficient checked "
          "against the exact rational), so the jump at the switch is below that; closed-form cell exact (SeriesLemmas); consumer corollary: SO3Dcm "
          "exp within 1e-14 entrywise on the Taylor cell. Doubles-vs-40-digit-mpmath grid search supports the 1e-9 claim and finiteness of AD derivatives.",
